@@ -595,8 +595,14 @@ func writeEvidence(c *checkCtx, wall time.Duration, exit int) {
 		"violations":  c.confirmed,
 	}
 	b, _ := json.MarshalIndent(ev, "", " ")
-	os.MkdirAll(filepath.Join(verifDir, "evidence"), 0755)
-	os.WriteFile(filepath.Join(verifDir, "evidence", c.prop.ID+".json"), b, 0644)
+	// evidence describes runs against /repo; a run against another tree (VERIF_REPO: seeds, refactorings, old commits)
+	// writes its record elsewhere so that the committed evidence is never overwritten by it
+	evDir := filepath.Join(verifDir, "evidence")
+	if r := os.Getenv("VERIF_REPO"); r != "" && filepath.Clean(r) != "/repo" {
+		evDir = filepath.Join(os.TempDir(), "gosym-evidence-other-tree")
+	}
+	os.MkdirAll(evDir, 0755)
+	os.WriteFile(filepath.Join(evDir, c.prop.ID+".json"), b, 0644)
 }
 
 func maxInt(a, b int) int {
